@@ -4,7 +4,7 @@ import random
 
 from .. import core, flow, oracles_taylor as ot
 
-PROOFS = ['Tsv.Proofs.C02Exact', 'Tsv.Proofs.C02Taylor', 'Tsv.Proofs.C02SRK']
+PROOFS = ['Tsv.Proofs.C02Exact', 'Tsv.Proofs.C02Taylor', 'Tsv.Proofs.C02SRK', 'Tsv.Proofs.C02Warm']
 TRUSTED = ["Lean 4.33 kernel + Mathlib (ring, field_simp)", "tracer/emitter (validated each run: real solver.step vs trace, Lean Float vs trace)",
            "Spec/Taylor.lean: the hand-written Ito-Taylor terms (Kloeden-Platen hierarchical set for strong order 1.5, scalar case), the "
            "Ito form of a Stratonovich SDE, and the Gaussian moment table of (dW/sqrt h, U/h^1.5)",
@@ -15,10 +15,16 @@ TRUSTED = ["Lean 4.33 kernel + Mathlib (ring, field_simp)", "tracer/emitter (val
 
 
 def run(rep, tier, seed):
-    flow.run_gen(rep, {'Steps', 'Staged'}, seed, 10 if tier == 'quick' else 100)
+    flow.run_gen(rep, {'Steps', 'Staged', 'Warm'}, seed, 10 if tier == 'quick' else 100)
+    from .c13 import no_hidden_state
+    bad = no_hidden_state()
+    rep.ob('tie:no-hidden-solver-state', 'methods/*.py, base_solver.py', not bad, '; '.join(bad))
     flow.run_proofs(rep, PROOFS, extra_scan=['Tsv.Gen.Steps', 'Tsv.Gen.Staged', 'Tsv.Spec.Taylor'])
     rng = random.Random(seed)
     fails, st = core.safe(ot.search, rng, 1 if tier == 'quick' else 12)
+    fw, stw = core.safe(ot.search, rng, 1 if tier == 'quick' else 6, None, True)
+    fails = fails + fw
+    st['warm_evals'] = stw.get('evals', 0)
     rep.ob('oracle:local-expansion-of-the-real-step-vs-Taylor', f"{st['evals']} (program, base point, increments) cases", not fails,
            json.dumps(fails[:1], default=str)[:900])
     rep.cov['real_code_oracle'] = st
@@ -28,7 +34,7 @@ def run(rep, tier, seed):
                         "(E[real step] - Taylor means)/s^(n+2) over h = 2^-5, 2^-8, 2^-11 with the expectation by Gauss-Hermite quadrature; "
                         "n = 2 x advertised strong order read off the real solver object; distinct = programs")
     rep._f = fails
-    return flow.conclude(rep, lambda r, b: r._f or ot.search(random.Random(r.seed + 2), 6)[0],
+    return flow.conclude(rep, lambda r, b: r._f or (ot.search(random.Random(r.seed + 2), 6)[0] or ot.search(random.Random(r.seed + 3), 6, None, True)[0]),
                          checker_cmd='lake build ' + ' '.join(PROOFS) + ' && #print axioms audit', trusted=TRUSTED)
 
 
